@@ -134,6 +134,19 @@ def build_model(log):
 
 # --------------------------------------------------------------------------- running cases
 
+def _big_stack():
+    """the extracted model recurses on lists (fold_right, app): give it a deep stack (the implementation's processes keep the
+    default, because the stack limit is an input of the ARG_MAX computations under test)"""
+    import resource
+    soft, hard = resource.getrlimit(resource.RLIMIT_STACK)
+    want = 4 << 30
+    if hard != resource.RLIM_INFINITY:
+        want = min(want, hard)
+    if soft == resource.RLIM_INFINITY or soft >= want:
+        return
+    resource.setrlimit(resource.RLIMIT_STACK, (want, hard))
+
+
 def run_lines(binary, lines, shards=None, timeout=1200, env=None, cwd=None, clean_env=False):
     """Feed [lines] to a line-protocol binary; returns one output line per input line."""
     if not lines:
@@ -149,7 +162,8 @@ def run_lines(binary, lines, shards=None, timeout=1200, env=None, cwd=None, clea
     for i in range(0, n, size):
         data = ("\n".join(lines[i:i + size]) + "\n").encode()
         p = subprocess.Popen([binary], stdin=subprocess.PIPE, stdout=subprocess.PIPE,
-                             stderr=subprocess.DEVNULL, env=e, cwd=cwd)
+                             stderr=subprocess.DEVNULL, env=e, cwd=cwd,
+                             preexec_fn=_big_stack if binary == FUVM else None)
         procs.append((p, data, min(size, n - i)))
     # feed sequentially with threads to avoid pipe deadlocks
     import threading
@@ -177,6 +191,11 @@ def run_lines(binary, lines, shards=None, timeout=1200, env=None, cwd=None, clea
         while len(got) < cnt:
             got.append("runner-died")
         res += got[:cnt]
+    if binary == FUVM:
+        # the model is total: an exception or an unknown request in its runner is a fault of the machinery, never an answer
+        for ln, r in zip(lines, res):
+            if r.startswith("exn ") or r in ("badcase", "runner-died"):
+                raise RuntimeError("model runner failed: %r on request %r" % (r, ln[:200]))
     return res
 
 
